@@ -111,6 +111,7 @@ type Frame struct {
 	localsSameBlock bool
 	frame *frameInfo
 	lineHintHits map[int]int // `hint at "line"` clauses: number of program points matched (ext_linehint.go)
+	lastCallRes []SV // results of the call a `hint after` clause is attached to (instr.go)
 }
 
 type retRec struct {
@@ -753,6 +754,9 @@ func (fr *Frame) walk(entry *State, params []SV, entryGuard string) {
 					}
 				}
 				e := inEdge{pred: b, pidx: pidx, guard: and(g, fr.edgeCond(b, si))}
+				if fr.top {
+					fc.cover(fmt.Sprintf("backedge@%d", b.Index), e.guard) // vacuity probe: the loop body can be completed
+				}
 				fr.checkInvariants(li, e, "inv-keep")
 				if blw := fc.loopWrites[fmt.Sprintf("%s#%d", fr.prefix, s.Index)]; blw["*"] {
 					fr.checkFrame(st, e.guard, fmt.Sprintf("L%d", li.ordinal), loopPos(li), nil)
